@@ -122,6 +122,21 @@ func (t *Tool) enter(name string, args ...interface{}) (fault string) {
 	if h.FaultAt > 0 && n == h.FaultAt {
 		h.Fired = true
 		fault = h.Flavour
+		if fault == "site" {
+			// the flavour that makes this method's call site fail downstream
+			switch name {
+			case "Chk":
+				fault = "zero"
+			case "Ptr":
+				fault = "nilptr"
+			case "Idx0":
+				fault = "range"
+			case "Kind":
+				fault = "kind"
+			default:
+				fault = "panic"
+			}
+		}
 	}
 	cancelNow := h.CancelAt > 0 && n == h.CancelAt
 	yield := h.YieldP > 0 && n%h.YieldP == 0
@@ -203,6 +218,14 @@ func (t *Tool) Cnt(a int64) int64     { t.enter("Cnt", a); return a*a + 1 }
 func (t *Tool) Cnt2(a, b int64) int64 { t.enter("Cnt2", a, b); return a - b }
 func (t *Tool) Heavy(s string) bool   { t.enter("Heavy", s); return len(s)%2 == 0 }
 
+// Tag / Tag2 / TagS are counted pure methods whose first argument identifies the call text.
+func (t *Tool) Tag(id, a int64) int64     { t.enter("Tag", id, a); return a*3 + id }
+func (t *Tool) Tag2(id, a, b int64) int64 { t.enter("Tag2", id, a, b); return a - 2*b + id }
+func (t *Tool) TagS(id int64, s string) bool {
+	t.enter("TagS", id, s)
+	return (int64(len(s))+id)%2 == 0
+}
+
 // ---- state reader / mutator (only used with Forget/Changed) ----
 
 func (t *Tool) Peek() int64 { t.enter("Peek"); return t.St }
@@ -215,46 +238,46 @@ func (t *Tool) Poke(v int64) {
 
 func (t *Tool) Mark(seq int64) { t.enter("Mark", seq) }
 
-// ---- fault methods: behave as identity unless the fault plan selects this call ----
+// ---- fault methods: healthy unless the fault plan selects this call; the first argument
+// identifies the call text ----
 
-// Chk returns a unless the plan makes this call fail.
-func (t *Tool) Chk(a int64) int64 {
-	switch t.enter("Chk", a) {
-	case "zero":
+// Chk returns a (used as a % divisor), or 0 when the plan says so.
+func (t *Tool) Chk(id, a int64) int64 {
+	if t.enter("Chk", id, a) == "zero" {
 		return 0
 	}
 	return a
 }
 
 // Ptr returns a valid *Inner, or nil when the plan says so (the caller then reads a field of it).
-func (t *Tool) Ptr(a int64) *Inner {
-	if t.enter("Ptr", a) == "nilptr" {
+func (t *Tool) Ptr(id, a int64) *Inner {
+	if t.enter("Ptr", id, a) == "nilptr" {
 		return nil
 	}
 	return &Inner{X: a, S: "p"}
 }
 
-// Idx returns a valid index (0) or one that is out of range.
-func (t *Tool) Idx0(a int64) int64 {
-	if t.enter("Idx0", a) == "range" {
+// Idx0 returns a valid index (0) or one that is out of range.
+func (t *Tool) Idx0(id, a int64) int64 {
+	if t.enter("Idx0", id, a) == "range" {
 		return 1 << 40
 	}
 	return 0
 }
 
-// Kind returns an int64, or a string when the plan says so (used as an arithmetic operand).
-func (t *Tool) Kind(a int64) interface{} {
-	if t.enter("Kind", a) == "kind" {
+// Kind returns an int64, or a string when the plan says so (used as a multiplication operand).
+func (t *Tool) Kind(id, a int64) interface{} {
+	if t.enter("Kind", id, a) == "kind" {
 		return "not-a-number"
 	}
 	return a
 }
 
 // Two always returns two values: calling it is an error by documentation.
-func (t *Tool) Two(a int64) (int64, int64) { t.enter("Two", a); return a, a }
+func (t *Tool) Two(id, a int64) (int64, int64) { t.enter("Two", id, a); return a, a }
 
 // Boom always panics.
-func (t *Tool) Boom(a int64) int64 { t.enter("Boom", a); panic("boom") }
+func (t *Tool) Boom(id, a int64) int64 { t.enter("Boom", id, a); panic("boom") }
 
 // ---- control methods ----
 
